@@ -128,6 +128,8 @@ const (
 	LexerBuiltinOperator
 	LexerRuneLit
 	LexerRuneEscaped
+	LexerStrHexEscape  // reading the digits of \xHH, \uHHHH, \UHHHHHHHH in a string
+	LexerRuneHexEscape // the same in a rune literal
 )
 
 type Lexer struct {
@@ -146,6 +148,11 @@ type Lexer struct {
 
 	priori    int
 	priorRune [20]rune
+
+	// a \xHH, \uHHHH or \UHHHHHHHH escape whose digits are being read
+	escDigits int  // hex digits still to come
+	escValue  rune // value of the digits read so far
+	escByte   bool // \xHH in a string stands for one byte
 }
 
 func (lexer *Lexer) AppendToken(tok Token) {
@@ -207,13 +214,17 @@ func (lex *Lexer) Reset() {
 	lex.prevPrevToken = Token{}
 	lex.priori = 0
 	lex.priorRune = [20]rune{}
+	lex.escDigits = 0
+	lex.escValue = 0
+	lex.escByte = false
 }
 
 // InLiteral reports whether the lexer is in the middle of a string or
 // rune literal; no token has been queued for it yet.
 func (lex *Lexer) InLiteral() bool {
 	switch lex.state {
-	case LexerStrLit, LexerStrEscaped, LexerRuneLit, LexerRuneEscaped:
+	case LexerStrLit, LexerStrEscaped, LexerRuneLit, LexerRuneEscaped,
+		LexerStrHexEscape, LexerRuneHexEscape:
 		return true
 	}
 	return false
@@ -294,6 +305,12 @@ func EscapeChar(char rune) (rune, error) {
 		return '\a', nil
 	case 't':
 		return '\t', nil
+	case 'b':
+		return '\b', nil
+	case 'f':
+		return '\f', nil
+	case 'v':
+		return '\v', nil
 	case '\\':
 		return '\\', nil
 	case '"':
@@ -304,6 +321,70 @@ func EscapeChar(char rune) (rune, error) {
 		return '#', nil
 	}
 	return ' ', errors.New("invalid escape sequence")
+}
+
+// hexEscapeLen gives the number of hex digits that follow
+// the x, u or U of an escape sequence; 0 for any other rune.
+func hexEscapeLen(char rune) int {
+	switch char {
+	case 'x':
+		return 2
+	case 'u':
+		return 4
+	case 'U':
+		return 8
+	}
+	return 0
+}
+
+func hexDigitValue(char rune) (rune, bool) {
+	switch {
+	case '0' <= char && char <= '9':
+		return char - '0', true
+	case 'a' <= char && char <= 'f':
+		return char - 'a' + 10, true
+	case 'A' <= char && char <= 'F':
+		return char - 'A' + 10, true
+	}
+	return 0, false
+}
+
+// startHexEscape begins \xHH, \uHHHH or \UHHHHHHHH (the forms
+// strconv.Quote and strconv.QuoteRune write) if char is x, u or U.
+func (lexer *Lexer) startHexEscape(char rune, next LexerState) bool {
+	n := hexEscapeLen(char)
+	if n == 0 {
+		return false
+	}
+	lexer.escDigits = n
+	lexer.escValue = 0
+	lexer.escByte = char == 'x' && next == LexerStrHexEscape
+	lexer.state = next
+	return true
+}
+
+// hexEscapeDigit takes the next digit of the escape; after the
+// last one the character goes to the buffer and the literal continues.
+func (lexer *Lexer) hexEscapeDigit(char rune, back LexerState) error {
+	d, ok := hexDigitValue(char)
+	if !ok {
+		return errors.New("invalid escape sequence")
+	}
+	lexer.escValue = lexer.escValue<<4 | d
+	lexer.escDigits--
+	if lexer.escDigits > 0 {
+		return nil
+	}
+	if lexer.escByte {
+		lexer.buffer.WriteByte(byte(lexer.escValue))
+	} else {
+		if !utf8.ValidRune(lexer.escValue) {
+			return errors.New("invalid escape sequence")
+		}
+		lexer.buffer.WriteRune(lexer.escValue)
+	}
+	lexer.state = back
+	return nil
 }
 
 func DecodeChar(atom string) (string, error) {
@@ -560,6 +641,9 @@ top:
 		return nil
 
 	case LexerStrEscaped:
+		if lexer.startHexEscape(r, LexerStrHexEscape) {
+			return nil
+		}
 		char, err := EscapeChar(r)
 		if err != nil {
 			return err
@@ -584,6 +668,9 @@ top:
 		return nil
 
 	case LexerRuneEscaped:
+		if lexer.startHexEscape(r, LexerRuneHexEscape) {
+			return nil
+		}
 		char, err := EscapeChar(r)
 		if err != nil {
 			return err
@@ -591,6 +678,12 @@ top:
 		lexer.buffer.WriteRune(char)
 		lexer.state = LexerRuneLit
 		return nil
+
+	case LexerStrHexEscape:
+		return lexer.hexEscapeDigit(r, LexerStrLit)
+
+	case LexerRuneHexEscape:
+		return lexer.hexEscapeDigit(r, LexerRuneLit)
 
 	case LexerUnquote:
 		if r == '@' {
